@@ -18,6 +18,25 @@ pub static NOW: AtomicI64 = AtomicI64::new(0);
 pub static SLOT: AtomicU64 = AtomicU64::new(0);
 pub static OTHER_CPI: AtomicU64 = AtomicU64::new(0);
 
+/// A CPI to a program other than the System program (recorded, answered with Ok).
+#[derive(Clone, Debug)]
+pub struct CpiRec {
+    pub program: Pubkey,
+    pub data: Vec<u8>,
+    pub accounts: Vec<Pubkey>,
+}
+static CPI_LOG: std::sync::Mutex<Vec<CpiRec>> = std::sync::Mutex::new(Vec::new());
+static RETURN_DATA: std::sync::Mutex<Option<(Pubkey, Vec<u8>)>> = std::sync::Mutex::new(None);
+
+/// Take (and clear) the recorded foreign CPIs.
+pub fn take_cpi_log() -> Vec<CpiRec> {
+    std::mem::take(&mut *CPI_LOG.lock().unwrap())
+}
+/// What `get_return_data` answers after a (stubbed) foreign CPI.
+pub fn set_return_data(v: Option<(Pubkey, Vec<u8>)>) {
+    *RETURN_DATA.lock().unwrap() = v;
+}
+
 pub fn set_now(t: i64) {
     NOW.store(t, Ordering::SeqCst);
 }
@@ -67,6 +86,9 @@ impl program_stubs::SyscallStubs for Stubs {
         unsafe { std::ptr::write_unaligned(var_addr as *mut Rent, Rent::default()) };
         0
     }
+    fn sol_get_return_data(&self) -> Option<(Pubkey, Vec<u8>)> {
+        RETURN_DATA.lock().unwrap().clone()
+    }
     fn sol_invoke_signed(
         &self,
         ix: &Instruction,
@@ -75,6 +97,11 @@ impl program_stubs::SyscallStubs for Stubs {
     ) -> ProgramResult {
         if ix.program_id != solana_program::system_program::ID {
             OTHER_CPI.fetch_add(1, Ordering::SeqCst);
+            CPI_LOG.lock().unwrap().push(CpiRec {
+                program: ix.program_id,
+                data: ix.data.clone(),
+                accounts: ix.accounts.iter().map(|a| a.pubkey).collect(),
+            });
             return Ok(());
         }
         let d = &ix.data;
